@@ -6,7 +6,7 @@ LEVEL_NOTE = ("assumes: listeners are arbitrary callables that log themselves, m
 from pyvc.contracts import REG as R
 from . import event_contracts as ec
 R.opaque_hook = ec.opaque_listener
-TARGETS = [ec.DD, ec.AL] + ec.TARGETS_LOOKUP
+TARGETS = [ec.DD, ec.AL] + ec.TARGETS_LOOKUP + ec.TARGETS_CONFIG + ec.TARGETS_EVENTS
 structural = ec.structural
 LEMMAS = []
 try:
